@@ -64,10 +64,12 @@ Section Fed.
     | [] => ""
     end.
 
-  (* what the service answers to a follow-up fetch of [sels] on type [ptype] for the object [id] *)
+  (* what the service answers to a follow-up fetch of [sels] on type [ptype] for the object [id];
+     execute.go binds the variable id to the point's id for every follow-up fetch, over whatever
+     the client bound under that name *)
   Definition node_answer (ptype : string) (sels : list sel) (id : string) : res json :=
     match find_obj id (w_objs w) with
-    | Some o => Ok (exec fuel w [] vars (Some o) (b_type o) [Inline ptype [] sels])
+    | Some o => Ok (exec fuel w [] (("id", JStr id) :: vars) (Some o) (b_type o) [Inline ptype [] sels])
     | None => Err "service returned no object for node"
     end.
 
@@ -165,7 +167,7 @@ Section Fed2.
 
   Definition node_answer2 (frags : list fragdef) (ptype : string) (sels : list sel) (id : string) : res json :=
     match find_obj id (w_objs w) with
-    | Some o => Ok (exec fuel w frags vars (Some o) (b_type o) [Inline ptype [] sels])
+    | Some o => Ok (exec fuel w frags (("id", JStr id) :: vars) (Some o) (b_type o) [Inline ptype [] sels])
     | None => Err "service returned no object for node"
     end.
 
